@@ -92,6 +92,23 @@ def seq_pairs():
     def pair(draw):
         al = draw(alph)
         sym = st.sampled_from(al)
+        if draw(st.integers(0, 11)) == 0:
+            # text-line sized sequences
+            rs = __import__("numpy").random.RandomState(draw(st.integers(0, 2 ** 31 - 1)))
+            a = [al[int(i)] for i in rs.randint(0, len(al), size=int(rs.randint(30, 90)))]
+            b = list(a)
+            for _ in range(int(rs.randint(0, 12))):
+                pos = int(rs.randint(0, len(b) + 1))
+                op = int(rs.randint(0, 3))
+                if op == 0:
+                    b.insert(pos, al[int(rs.randint(0, len(al)))])
+                elif op == 1 and b:
+                    del b[min(pos, len(b) - 1)]
+                elif b:
+                    b[min(pos, len(b) - 1)] = al[int(rs.randint(0, len(al)))]
+            if rs.randint(0, 2):
+                b = b[int(rs.randint(0, 10)):len(b) - int(rs.randint(0, 10))]
+            return (a, b) if rs.randint(0, 2) else (b, a)
         a = draw(st.lists(sym, max_size=9))
         mode = draw(st.integers(0, 3))
         if mode == 0:
@@ -201,6 +218,8 @@ def strip_free(pairs, container_side):
 def body_substring(ctx, case):
     from pero_ocr import sequence_alignment as sa
     a, b = case
+    if len(a) > 45 or len(b) > 45:
+        a, b = a[:45], b[:45]        # the brute-force substring optimum is O(n^2 * nm)
     ctx.event("types:" + kind_of(a, b))
     if len(a) > len(b):
         opts = {substring_opt(a, b): 0}
